@@ -626,9 +626,371 @@ func runC03Bytes(t *testing.T, x c03Bytes, verbose bool) vfCase {
 	return c
 }
 
+
+// ---- a conformant foreign peer that bundles freely, with garbage in between ----
+//
+// pion never bundles a SACK, a HEARTBEAT or a FORWARD-TSN with DATA, other stacks do all the
+// time. A puppet peer sends valid messages in generated bundling layouts (control chunks
+// before and after the DATA, several DATA chunks per packet, two-fragment messages), with
+// packets that must be dropped (random bytes, wrong tag, corrupted copies of the previous
+// packet) in between, to a reader that may be slow (it reads only after later packets
+// arrived). Everything the puppet sent must be read exactly once, intact, in order per
+// ordered stream; the endpoint's own data to the puppet is acknowledged in those bundles.
+
+type c03FStep struct {
+	K      string `json:"k"` // msg, garbage, sack, hb
+	SID    int    `json:"sid,omitempty"`
+	Unord  bool   `json:"unord,omitempty"`
+	Size   int    `json:"size,omitempty"`
+	Frags  int    `json:"frags,omitempty"`  // 1..3 fragments, one packet each unless Same
+	Same   bool   `json:"same,omitempty"`   // all fragments in one packet
+	Lead   string `json:"lead,omitempty"`   // chunk bundled before the DATA: "", sack, hb, hback, fwd, data
+	Trail  string `json:"trail,omitempty"`  // chunk bundled after the DATA
+	G      int    `json:"g,omitempty"`      // garbage kind / fill byte
+	GapMs  int    `json:"gap,omitempty"`
+	Resume bool   `json:"resume,omitempty"` // let the reader run before this step, pause it again after
+	// Phantom (with Lead "fwd"): the FORWARD-TSN really abandons something: a message of the same
+	// stream that is never sent (its TSN and sequence number are skipped), as a partially
+	// reliable sender does
+	Phantom bool `json:"phantom,omitempty"`
+}
+
+type c03Foreign struct {
+	IL     bool       `json:"il"`
+	TSN    uint32     `json:"tsn"`
+	Slow   bool       `json:"slow"` // reader paused while packets arrive
+	Writes int        `json:"writes"`
+	Steps  []c03FStep `json:"steps"`
+}
+
+func genC03Foreign(rt *rapid.T) c03Foreign {
+	x := c03Foreign{IL: rapid.Bool().Draw(rt, "il"), TSN: genTSN(rt, "tsn", 8448), Slow: rapid.IntRange(0, 3).Draw(rt, "slow") != 0, Writes: rapid.IntRange(0, 6).Draw(rt, "writes")}
+	n := rapid.IntRange(2, 30).Draw(rt, "n")
+	bund := []string{"", "", "sack", "sack", "hb", "hback", "fwd", "data"}
+	for i := 0; i < n; i++ {
+		st := c03FStep{GapMs: rapid.SampledFrom([]int{0, 0, 1, 20, 250}).Draw(rt, "gap"), Resume: rapid.IntRange(0, 5).Draw(rt, "resume") == 0}
+		switch rapid.IntRange(0, 9).Draw(rt, "k") {
+		case 0, 1:
+			st.K = "garbage"
+			st.G = rapid.IntRange(0, 1023).Draw(rt, "g")
+		case 2:
+			st.K = "sack"
+		case 3:
+			st.K = "hb"
+		default:
+			st.K = "msg"
+			st.SID = rapid.IntRange(0, 3).Draw(rt, "sid")
+			st.Unord = rapid.IntRange(0, 3).Draw(rt, "unord") == 0
+			st.Size = rapid.SampledFrom([]int{1, 4, 17, 100, 700, 1100}).Draw(rt, "size")
+			st.Frags = rapid.SampledFrom([]int{1, 1, 1, 2, 3}).Draw(rt, "frags")
+			st.Same = rapid.Bool().Draw(rt, "same")
+			st.Lead = rapid.SampledFrom(bund).Draw(rt, "lead")
+			st.Trail = rapid.SampledFrom(bund).Draw(rt, "trail")
+			st.Phantom = st.Lead == "fwd" && rapid.Bool().Draw(rt, "phantom")
+		}
+		x.Steps = append(x.Steps, st)
+	}
+	return x
+}
+
+func runC03Foreign(t *testing.T, x c03Foreign, verbose bool) (c vfCase) {
+	var e1 vfE1
+	e1.Cfg[0] = vfSideCfg{IL: x.IL, TSN: 1000, RTOMax: 2000}
+	e1.Cfg[1] = vfSideCfg{IL: x.IL, TSN: x.TSN}
+	bundled, garbageAfterData, phantoms := 0, false, 0
+	pm := vfBubble(t, func() {
+		s := newVfSim(t, &e1, verbose)
+		p := newVfPuppet(s, 1, vfPuppetCfg{IL: x.IL, TSN: x.TSN, ARwnd: 1 << 20})
+		defer func() {
+			if c.Verdict != "" || verbose {
+				c.Detail = s.history(300)
+			}
+			s.closeAll()
+		}()
+		if !p.connectAsServer(30 * time.Second) {
+			c.fail("puppet-handshake", "victim did not establish with the puppet")
+			return
+		}
+		s.afterEstablished()
+		p.autoSack = true
+		for i := 0; i < x.Writes; i++ {
+			s.doWrite(0, uint16(10+i%2), 50+i*300, 53)
+		}
+		s.o.settle(0)
+		if x.Slow {
+			s.pause(0)
+		}
+		type sent struct {
+			sid   uint16
+			unord bool
+			hash  uint64
+			n     int
+		}
+		var msgs []sent
+		seq := map[[2]int]uint32{} // (sid, unordered) -> next SSN / MID
+		var last []byte
+		dataBefore := false
+		var phantomFwd *wChunk
+		extra := func(kind string, own *[]sent, fwdTo uint32) []wChunk {
+			if kind == "fwd" && phantomFwd != nil {
+				ch := *phantomFwd
+				phantomFwd = nil
+				return []wChunk{ch}
+			}
+			switch kind {
+			case "sack":
+				return []wChunk{p.sackChunk()}
+			case "hb":
+				return []wChunk{{Type: wtHB, Params: []wTLV{{Type: 1, Val: []byte("foreign-heartbeat")}}}}
+			case "hback":
+				return []wChunk{{Type: wtHBACK, Params: []wTLV{{Type: 1, Val: []byte("unsolicited")}}}}
+			case "fwd":
+				// a FORWARD-TSN that forwards nothing (everything up to it was sent before): legal, a no-op
+				ft := uint8(wtFWD)
+				if x.IL {
+					ft = wtIFWD
+				}
+				return []wChunk{{Type: ft, NewCum: fwdTo}}
+			case "data":
+				// one more small message of its own on stream 5
+				k := [2]int{5, 0}
+				pl := vfPayload(9000+len(msgs)+len(*own), 9)
+				ch := p.data(5, seq[k], false, pl)
+				seq[k]++
+				*own = append(*own, sent{5, false, vfHash64(pl), len(pl)})
+				return []wChunk{ch}
+			}
+			return nil
+		}
+		for i, st := range x.Steps {
+			if st.GapMs > 0 {
+				s.o.settle(time.Duration(st.GapMs) * time.Millisecond)
+			}
+			if st.Resume && x.Slow {
+				s.resume(0)
+				s.o.settle(0)
+				s.pause(0)
+			}
+			switch st.K {
+			case "garbage":
+				var raw []byte
+				switch st.G % 4 {
+				case 0: // random bytes of the length of the previous packet
+					raw = vfPayload(st.G, len(last)+12)
+				case 1: // the previous packet again with its body overwritten (checksum no longer right)
+					raw = append([]byte(nil), last...)
+					for j := 12; j < len(raw); j++ {
+						raw[j] = byte(st.G)
+					}
+				case 2: // a well-formed DATA packet with a wrong checksum (the library checks no verification tags, so the tag is right)
+					pl := vfPayload(st.G, 40)
+					ch := wChunk{Type: wtDATA, TSN: p.nextTSN, SID: 0, SSN: 999, PPI: 53, B: true, E: true, Data: pl}
+					ch.encodeBody()
+					raw = wEncode(&wPacket{Src: 5000, Dst: 5000, VTag: p.peerTag, Chunks: []wChunk{ch}}, 0)
+					raw[8] ^= 0x40
+				default: // a long packet of one repeated byte
+					raw = make([]byte, 1200)
+					for j := range raw {
+						raw[j] = byte(st.G)
+					}
+				}
+				if len(raw) < 12 {
+					raw = make([]byte, 12)
+				}
+				if dataBefore {
+					garbageAfterData = true
+				}
+				p.sendRaw(raw)
+			case "sack":
+				p.sendSack()
+			case "hb":
+				p.send(wChunk{Type: wtHB, Params: []wTLV{{Type: 1, Val: []byte("foreign-heartbeat")}}})
+			case "msg":
+				k := [2]int{st.SID, 0}
+				if st.Unord {
+					k[1] = 1
+				}
+				frags := st.Frags
+				if frags > st.Size {
+					frags = 1
+				}
+				pl := vfPayload(7000+i, st.Size)
+				if st.Phantom && st.Lead == "fwd" {
+					ft := uint8(wtFWD)
+					if x.IL {
+						ft = wtIFWD
+					}
+					ch := wChunk{Type: ft, NewCum: p.nextTSN}
+					if !st.Unord || x.IL {
+						ch.FwdStrs = []wFwdStream{{SID: uint16(st.SID), SSN: uint16(seq[k]), Unordered: st.Unord, MID: seq[k]}}
+					}
+					p.nextTSN++
+					seq[k]++
+					phantomFwd = &ch
+					phantoms++
+				}
+				firstTSN := p.nextTSN
+				var own []sent
+				var chunks []wChunk
+				per := (st.Size + frags - 1) / frags
+				for f := 0; f < frags; f++ {
+					lo, hi := f*per, (f+1)*per
+					if hi > st.Size {
+						hi = st.Size
+					}
+					ch := p.data(uint16(st.SID), seq[k], st.Unord, pl[lo:hi])
+					ch.B, ch.E = f == 0, f == frags-1
+					if x.IL {
+						ch.FSN = uint32(f)
+						if f > 0 {
+							ch.PPI = 0
+						}
+					}
+					chunks = append(chunks, ch)
+				}
+				seq[k]++
+				msgs = append(msgs, sent{uint16(st.SID), st.Unord, vfHash64(pl), len(pl)})
+				var packets [][]wChunk
+				if st.Same || frags == 1 {
+					packets = [][]wChunk{chunks}
+				} else {
+					for _, ch := range chunks {
+						packets = append(packets, []wChunk{ch})
+					}
+				}
+				for pi, pc := range packets {
+					var out []wChunk
+					if pi == 0 {
+						out = append(out, extra(st.Lead, &own, firstTSN-1)...)
+					}
+					out = append(out, pc...)
+					if pi == len(packets)-1 {
+						out = append(out, extra(st.Trail, &own, p.nextTSN-1)...)
+					}
+					if len(out) > len(pc) {
+						bundled++
+					}
+					for j := range out {
+						out[j].encodeBody()
+					}
+					last = wEncode(&wPacket{Src: 5000, Dst: 5000, VTag: p.peerTag, Chunks: out}, 0)
+					p.sendRaw(last)
+				}
+				msgs = append(msgs, own...)
+				dataBefore = true
+			}
+		}
+		s.o.settle(300 * time.Millisecond)
+		if x.Slow {
+			s.resume(0)
+		}
+		got := func() int {
+			s.mu.Lock()
+			defer s.mu.Unlock()
+			n := 0
+			for _, r := range s.reads {
+				if r.Side == 0 && r.Err == "" {
+					n++
+				}
+			}
+			return n
+		}
+		s.o.run(func() bool { return got() >= len(msgs) }, time.Now().Add(20*time.Second))
+		s.o.settle(500 * time.Millisecond)
+		if st := s.as[0].getState(); st != established {
+			c.fail("association-lost", "the endpoint left the established state (%s) although the peer sent only valid packets and packets that must be dropped", getAssociationStateString(st))
+			return
+		}
+		// per stream: what was read against what was sent
+		s.mu.Lock()
+		reads := append([]vfReadRec(nil), s.reads...)
+		s.mu.Unlock()
+		type key struct {
+			sid   uint16
+			unord bool
+		}
+		want := map[uint16][]sent{}
+		for _, m := range msgs {
+			want[m.sid] = append(want[m.sid], m)
+		}
+		have := map[uint16][]vfReadRec{}
+		for _, r := range reads {
+			if r.Side == 0 && r.Err == "" {
+				have[r.SID] = append(have[r.SID], r)
+			}
+		}
+		for sid, ws := range want {
+			rs := have[sid]
+			// ordered messages of the stream: exact order; unordered ones: as a multiset
+			var wo, wu []sent
+			for _, m := range ws {
+				if m.unord {
+					wu = append(wu, m)
+				} else {
+					wo = append(wo, m)
+				}
+			}
+			pool := map[uint64]int{}
+			for _, m := range wu {
+				pool[m.hash]++
+			}
+			oi := 0
+			for _, r := range rs {
+				if pool[r.Hash] > 0 {
+					pool[r.Hash]--
+					continue
+				}
+				if oi < len(wo) && wo[oi].hash == r.Hash && wo[oi].n == r.N {
+					oi++
+					continue
+				}
+				c.fail("delivered-data-corrupted", "stream %d: read a message of %d bytes (hash %x) that the peer did not send at this position (ordered message %d of %d expected: %d bytes)", sid, r.N, r.Hash, oi, len(wo), func() int {
+					if oi < len(wo) {
+						return wo[oi].n
+					}
+					return -1
+				}())
+				return
+			}
+			left := 0
+			for _, v := range pool {
+				left += v
+			}
+			if oi < len(wo) || left > 0 {
+				c.fail("valid-data-not-delivered", "stream %d: %d of %d ordered and %d unordered messages sent by the peer in valid packets were never read", sid, len(wo)-oi, len(wo), left)
+				return
+			}
+		}
+		for sid, rs := range have {
+			if len(want[sid]) == 0 && len(rs) > 0 {
+				c.fail("forged-data-delivered", "stream %d delivered %d messages nobody sent", sid, len(rs))
+				return
+			}
+		}
+	})
+	if pm != "" && c.Verdict == "" {
+		c.fail("bubble-panic", "bubble: %s", pm)
+	}
+	if x.Slow {
+		c.class("slow-reader")
+	}
+	if bundled > 0 {
+		c.class("control-chunks-bundled-with-data")
+	}
+	if garbageAfterData {
+		c.class("garbage-after-data")
+	}
+	if phantoms > 0 {
+		c.class("forward-tsn-that-skips-bundled-with-data")
+	}
+	c.Nontrivial = bundled > 0 && garbageAfterData
+	return c
+}
+
 func TestVF_C03(t *testing.T) {
 	vfExplore(t, "C03", "inject", vfN(3200, 80000), genC03, func(x c03Scn) vfCase { return runC03(t, x, vfEnv.Replay != "") })
 	vfExplore(t, "C03", "grammar-bytes", vfN(1600, 40000), genC03Bytes, func(x c03Bytes) vfCase { return runC03Bytes(t, x, vfEnv.Replay != "") })
+	vfExplore(t, "C03", "foreign-bundles", vfN(1600, 40000), genC03Foreign, func(x c03Foreign) vfCase { return runC03Foreign(t, x, vfEnv.Replay != "") })
 }
 
 // FuzzVF_C03: coverage-guided; bytes are split into packets injected into an established
